@@ -137,6 +137,83 @@ Section Sort.
   Proof. apply sort_by_sorted_id, sort_by_sorted. Qed.
 End Sort.
 
+
+(* ---- sorting commutes with a key-preserving map; depends on the keys only -------------------- *)
+Lemma insert_sorted_map (A B : Type) (key : B -> str) (f : A -> B) (x : A) (l : list A) :
+  insert_sorted key (f x) (map f l) = map f (insert_sorted (fun a => key (f a)) x l).
+Proof.
+  induction l as [|y l IH]; [reflexivity|]. cbn [map insert_sorted].
+  destruct (str_ltb (key (f y)) (key (f x))); [rewrite IH|]; reflexivity.
+Qed.
+
+Lemma sort_by_map (A B : Type) (key : B -> str) (f : A -> B) (l : list A) :
+  sort_by key (map f l) = map f (sort_by (fun a => key (f a)) l).
+Proof.
+  induction l as [|x l IH]; [reflexivity|]. unfold sort_by in *. cbn [map fold_right].
+  rewrite IH. apply insert_sorted_map.
+Qed.
+
+Lemma sort_by_ext (A : Type) (k1 k2 : A -> str) (l : list A) :
+  (forall a, k1 a = k2 a) -> sort_by k1 l = sort_by k2 l.
+Proof.
+  intros E. unfold sort_by. induction l as [|x l IH]; [reflexivity|]. cbn [fold_right]. rewrite IH.
+  generalize (fold_right (insert_sorted k2) [] l). intros l0.
+  induction l0 as [|y l0 IH0]; [reflexivity|]. cbn [insert_sorted]. rewrite !E, IH0. reflexivity.
+Qed.
+
+(* a strictly sorted list is determined by its elements *)
+Lemma sorted_perm_unique (A : Type) (key : A -> str) : forall l1 l2 : list A,
+  StronglySorted (klt key) l1 -> StronglySorted (klt key) l2 -> Permutation l1 l2 -> l1 = l2.
+Proof.
+  induction l1 as [|x l1 IH]; intros l2 H1 H2 Hp.
+  - apply Permutation_nil in Hp. congruence.
+  - destruct l2 as [|y l2]; [apply Permutation_sym, Permutation_nil in Hp; discriminate|].
+    inversion H1 as [|? ? Hs1 Hx]; subst. inversion H2 as [|? ? Hs2 Hy]; subst.
+    rewrite Forall_forall in Hx, Hy.
+    assert (Exy : x = y).
+    { assert (Hin1 : In x (y :: l2)) by (eapply Permutation_in; [exact Hp|left; reflexivity]).
+      assert (Hin2 : In y (x :: l1)) by (eapply Permutation_in; [apply Permutation_sym, Hp|left; reflexivity]).
+      destruct Hin1 as [E|Hin1]; [congruence|]. destruct Hin2 as [E|Hin2]; [congruence|].
+      exfalso. specialize (Hy x Hin1). specialize (Hx y Hin2). unfold klt in *.
+      apply str_ltb_asym in Hx. congruence. }
+    subst y. f_equal. apply IH; [assumption|assumption|]. eapply Permutation_cons_inv, Hp.
+Qed.
+
+(* sorting is insensitive to the order of the input when the keys are distinct *)
+Lemma sort_by_perm_unique (A : Type) (key : A -> str) (l l' : list A) :
+  Permutation l l' -> NoDup (map key l) -> sort_by key l = sort_by key l'.
+Proof.
+  intros Hp Hnd. apply (@sorted_perm_unique _ key).
+  - apply sort_by_strict, Hnd.
+  - apply sort_by_strict. eapply Permutation_NoDup; [apply Permutation_map, Hp|exact Hnd].
+  - eapply perm_trans; [apply sort_by_perm|]. eapply perm_trans; [exact Hp|apply Permutation_sym, sort_by_perm].
+Qed.
+
+(* ---- vfs.go ReadDir over ANY listing order of the underlying file ---------------------------- *)
+Theorem vfs_read_dir_spec (E : Type) (raw : str -> list dent * option E) (name : str) :
+  let l := fst (raw name) in
+  let r := vfs_read_dir raw name in
+  snd r = snd (raw name)
+  /\ StronglySorted (fun a b => str_ltb (de_name b) (de_name a) = false) (fst r)
+  /\ Permutation (fst r) l
+  /\ (NoDup (map (@de_name) l) -> StronglySorted (fun a b => str_ltb (de_name a) (de_name b) = true) (fst r)).
+Proof.
+  unfold vfs_read_dir. destruct (raw name) as [l e]. cbn [fst snd]. repeat split.
+  - apply (sort_by_sorted (@de_name)).
+  - apply sort_by_perm.
+  - intros Hnd. apply (sort_by_strict (@de_name)), Hnd.
+Qed.
+
+(* two files that list the same entries (distinct names) in different orders give the same ReadDir *)
+Theorem vfs_read_dir_any_order (E : Type) (raw raw' : str -> list dent * option E) (name : str) :
+  Permutation (fst (raw name)) (fst (raw' name)) -> snd (raw name) = snd (raw' name) ->
+  NoDup (map (@de_name) (fst (raw name))) ->
+  vfs_read_dir raw name = vfs_read_dir raw' name.
+Proof.
+  unfold vfs_read_dir. destruct (raw name) as [l e], (raw' name) as [l' e']. cbn [fst snd]. intros Hp -> Hnd.
+  f_equal. apply sort_by_perm_unique; assumption.
+Qed.
+
 (* ---- the listing of a directory node ------------------------------------------------ *)
 (* every name of the directory leads to a node (no dangling pointer) *)
 Definition entries_live (h : heap) (ch : list (str * nat)) : Prop :=
